@@ -409,12 +409,20 @@ structure SMsg where
 
 def be16 (n : Nat) : Bytes := [UInt8.ofNat (n / 256), UInt8.ofNat n]
 
+/-- a length the table fixes must be the length sent (TS 24.501 7.5: otherwise the mandatory IE is syntactically incorrect) -/
+def fixedOK (fx : Option Nat) (n : Nat) : Bool :=
+  match fx with
+  | some k => k == n
+  | none => true
+
 def encMand : List MWire → List Bytes → Option Bytes
   | [], [] => some []
   | .v n :: ws, b :: bs => if b.length = n then (encMand ws bs).map (b ++ ·) else none
   | .vRest mn :: ws, b :: bs => if mn ≤ b.length then (encMand ws bs).map (b ++ ·) else none
-  | .lv _ :: ws, b :: bs => if b.length < 256 then (encMand ws bs).map ([UInt8.ofNat b.length] ++ b ++ ·) else none
-  | .lve _ :: ws, b :: bs => if b.length < 65536 then (encMand ws bs).map (be16 b.length ++ b ++ ·) else none
+  | .lv fx :: ws, b :: bs =>
+    if b.length < 256 ∧ fixedOK fx b.length = true then (encMand ws bs).map ([UInt8.ofNat b.length] ++ b ++ ·) else none
+  | .lve fx :: ws, b :: bs =>
+    if b.length < 65536 ∧ fixedOK fx b.length = true then (encMand ws bs).map (be16 b.length ++ b ++ ·) else none
   | _, _ => none
 
 def encOptIE (w : OWire) (val : Bytes) : Option Bytes :=
@@ -453,16 +461,18 @@ def parseMand : List MWire → Bytes → Option (List Bytes × Bytes)
     | none => none
     | some (a, r) => (parseMand ws r).map fun (vs, r') => (a :: vs, r')
   | .vRest mn :: ws, bs => if mn ≤ bs.length then (parseMand ws []).map fun (vs, r') => (bs :: vs, r') else none
-  | .lv _ :: ws, bs =>
+  | .lv fx :: ws, bs =>
     match bs with
     | [] => none
     | l :: r =>
+      if fixedOK fx l.toNat = false then none else
       match takeN l.toNat r with
       | none => none
       | some (a, r') => (parseMand ws r').map fun (vs, r'') => (a :: vs, r'')
-  | .lve _ :: ws, bs =>
+  | .lve fx :: ws, bs =>
     match bs with
     | l1 :: l2 :: r =>
+      if fixedOK fx (l1.toNat * 256 + l2.toNat) = false then none else
       match takeN (l1.toNat * 256 + l2.toNat) r with
       | none => none
       | some (a, r') => (parseMand ws r').map fun (vs, r'') => (a :: vs, r'')
